@@ -107,6 +107,140 @@ def no_handover_on_critical_failure(ctx, rep, rule):
     rep.need(rule, n, 1, "job-exception exits of the wrapper")
 
 
+def window_gate(ctx, rep, rule, clause):
+    """a job that obtains its window slot after the run is over does not start: between the last suspension and the
+    start of the body the wrapper tests a flag of the window (the gate), and that flag is raised
+    - clause 'critical': on the path where the body of a critical job raises (C05);
+    - clause 'endofrun': when the last job that does not run forever completes - the window counts them (C09).
+    The release of a slot wakes a queued job up before the scheduler itself resumes: only the wrapper can tell."""
+    from .runrules import count_term
+    r = ctx.roles
+    an, ip, out = ctx.wrap(gen_cancel=True, gen_bodyexc=True)
+    fn = r.WRAP.qualname
+    bodies = an.events('BODY')
+    rep.need(rule, len(bodies), 1, "job-body awaits in the wrapper")
+    gates = None
+    for e in bodies:
+        g = {k[2] for k, v in e.st.facts.items() if v is False and T.is_attr(k) and k[1] == T.SELF}
+        gates = g if gates is None else (gates & g)
+    what = {"critical": "a critical job has failed", "endofrun": "the last job that does not run forever is over"}[clause]
+    if not gates:
+        e = bodies[0]
+        rep.fail(rule, "%s the body starts only if the window is still open" % e.where, fn,
+                 "`%s` is reached from the acquisition of the slot without a test of the window's state made after the "
+                 "last suspension" % src(e.node),
+                 "a job queued for a slot when %s is woken up by the next slot that is given back - before the "
+                 "scheduler itself resumes and cancels it - and starts its body although the run is over" % what,
+                 trace(e.st))
+        return
+    rep.ok(rule, "%s: body reached only with %s false" % (fn, sorted(gates)))
+    if clause == 'critical':
+        n = 0
+        for st, kind, node in out.exc:
+            if kind[0] != 'BodyExc' or _critical_fact(ctx, st) is not True:
+                continue
+            n += 1
+            rep.check(bool(gates & (st.a('wset') or frozenset())), rule,
+                      "%s the failure of a critical job closes the window" % ip.where(node), fn,
+                      "exit[BodyExc] of a critical job without `self.%s = True`" % sorted(gates)[0],
+                      "a job queued for a slot starts after a critical job has raised, as soon as any other job "
+                      "gives its slot back (it completes in the same instant, or a few loop iterations later)",
+                      trace(st))
+        rep.need(rule + ":critical", n, 1, "exits of the wrapper by the failure of a critical job")
+        return
+    # --- end of run: the window counts the jobs that are expected to complete
+    jv = T.mk(('var', r.wrap_jobvar))
+    FOREVER = T.mk(('attr', jv, 'forever'))
+    closes = []
+    for e in an.events('WSTORE'):
+        if e.data['attr'] in gates and e.data['val'] == T.TRUE:
+            for K in e.data['wdec']:
+                KA = T.mk(('attr', T.SELF, K))
+                zero = e.st.facts.get(KA) is False or any(
+                    v is True and k[0] == 'cmp' and k[1] in ('==', '<=') and k[2] == KA and k[3] == ('const', 0)
+                    for k, v in e.st.facts.items()) or any(
+                    v is False and k[0] == 'cmp' and k[1] in ('>', '!=') and k[2] == KA and k[3] == ('const', 0)
+                    for k, v in e.st.facts.items())
+                if zero:
+                    closes.append((e, K))
+    if not closes:
+        rep.fail(rule, "%s the window closes with the last job that does not run forever" % fn, fn,
+                 "no `self.%s = True` under `<count of the jobs still expected> == 0` after that count was decremented"
+                 % sorted(gates)[0],
+                 "a forever job queued for a slot behind the last regular job is woken up when that job gives its slot "
+                 "back, before the scheduler resumes: it starts after the run is over")
+        return
+    counters = {K for _e, K in closes}
+    def forever_of(st):
+        fv = st.facts.get(FOREVER)
+        if fv is None and st.a('fvr') is not None:
+            fv = st.a('fvr')[1]
+        return fv
+    for st, val, node in out.ret:
+        fv = forever_of(st)
+        dec = counters & (st.a('wdec') or frozenset())
+        if fv is None:
+            rep.check(not dec, rule, "%s the count tells forever jobs from the others" % ip.where(node), fn,
+                      "`self.%s -= 1` on a path that does not look at `forever`" % sorted(counters)[0],
+                      "a forever job that ends is counted: the window closes while a regular job is still to run, and "
+                      "that job never starts", trace(st))
+            rep.check(bool(dec), rule, "%s a job that completes is counted" % ip.where(node), fn,
+                      "normal return without `self.%s -= 1`" % sorted(counters)[0],
+                      "the window never closes (a forever job queued behind the last regular job starts after the "
+                      "run is over)", trace(st))
+        elif fv is False:
+            rep.check(bool(dec), rule, "%s a job that completes is counted" % ip.where(node), fn,
+                      "normal return of a job that does not run forever without `self.%s -= 1`" % sorted(counters)[0],
+                      "the window never closes (a forever job queued behind the last regular job starts after the "
+                      "run is over)", trace(st))
+        else:
+            rep.check(not dec, rule, "%s a forever job that ends is not counted" % ip.where(node), fn,
+                      "`self.%s -= 1` for a forever job" % sorted(counters)[0],
+                      "the window closes while a regular job is still to run: that job never starts", trace(st))
+    for st, kind, node in out.exc:
+        if kind[0] != 'BodyExc':
+            continue
+        fv = forever_of(st)
+        dec = counters & (st.a('wdec') or frozenset())
+        if fv is True:
+            rep.check(not dec, rule, "%s a forever job that raises is not counted" % ip.where(node), fn,
+                      "`self.%s -= 1` for a forever job" % sorted(counters)[0],
+                      "the window closes while a regular job is still to run: that job never starts", trace(st))
+        elif _critical_fact(ctx, st) is not True:
+            rep.check(bool(dec), rule, "%s a job that raises (and is tolerated) is counted" % ip.where(node), fn,
+                      "exit[BodyExc] of a job that does not run forever without `self.%s -= 1`" % sorted(counters)[0],
+                      "the window never closes when a regular job has failed", trace(st))
+    # the count starts as the number of members that do not run forever
+    init = ctx.prog.supplier(r.window_cls, '__init__')
+    from ..graphmodel import GraphModel
+    okinit = False
+    why = "no constructor"
+    param = None
+    if init is not None:
+        an2, ip2, out2 = ctx.explore(init, model=GraphModel)
+        for e in an2.events('STORE'):
+            if e.data['attr'] in counters and e.data['obj'] == T.SELF:
+                for pn in init.params[1:]:
+                    okc, why = count_term(e.data['val'], lambda base, pn=pn: base == T.mk(('var', pn)),
+                                          lambda el: T.mk(('attr', el, 'forever')))
+                    if okc:
+                        okinit, param = True, pn
+                        break
+    rep.check(okinit, rule, "%s the count starts as the number of jobs that do not run forever" % r.window_cls.name,
+              (init.qualname if init else r.window_cls.name), "self.%s is initialised otherwise (%s)"
+              % (sorted(counters)[0], why), "the window closes too early (a regular job never starts) or never")
+    if okinit:
+        idx = init.params.index(param) - 1
+        calls = [n for n in walk_local(r.RUN.node) if isinstance(n, ast.Call) and dotted(n.func) == r.window_cls.name]
+        okarg = bool(calls)
+        for c in calls:
+            a = c.args[idx] if idx < len(c.args) else next((k.value for k in c.keywords if k.arg == param), None)
+            okarg = okarg and a is not None and dotted(a) == 'self.jobs'
+        rep.check(okarg, rule, "%s hands its members to the window" % r.RUN.qualname, r.RUN.qualname,
+                  "`%s`" % (src(calls[0]) if calls else "no window"),
+                  "the window counts something else than the jobs of this run")
+
+
 def wrap_typestate(ctx, rep, rule):
     """R07.1: body only while holding a slot; running flag only while held;
     release only if held; no double acquire"""
